@@ -33,7 +33,7 @@ def methodModKinds : List Kind := memberModKinds ++ [Kind.External, Kind.Forward
 
 /-- tokens that end a statement list (or a method) -/
 def stmtEnds : List Kind :=
-  [Kind.EndIf, Kind.Else, Kind.ElseIf, Kind.EndWhile, Kind.EndLoop, Kind.EndFor, Kind.End, Kind.EndProc, Kind.EndFunc]
+  [Kind.EndIf, Kind.Else, Kind.ElseIf, Kind.EndWhile, Kind.EndLoop, Kind.EndFor, Kind.Until, Kind.End, Kind.EndProc, Kind.EndFunc]
 
 /-- first tokens of the statement parsers that are tried before assignment / expression -/
 def stmtKw : List Kind :=
@@ -92,6 +92,10 @@ inductive Stmt (ε : Type) where
   | loopS (kw : Tok) (body : List (Stmt ε)) (endT : Tok)
   /-- `for v = lo to hi [step s] … endfor` -/
   | forS (kw var eq : Tok) (lo : ε) (to : Tok) (hi : ε) (step : Option (Tok × ε)) (body : List (Stmt ε)) (endT : Tok)
+  /-- `foreach e … endfor` (`e` is usually `v in list`, which `parse_expr` takes as a whole) -/
+  | foreachS (kw : Tok) (e : ε) (body : List (Stmt ε)) (endT : Tok)
+  /-- `repeat … until c` -/
+  | repeatS (kw : Tok) (body : List (Stmt ε)) (untilT : Tok) (c : ε)
 inductive IfTail (ε : Type) where
   | endif (t : Tok)
   | els (t : Tok) (body : List (Stmt ε)) (endT : Tok)
@@ -117,6 +121,8 @@ def Stmt.toks : Stmt ε → List Tok
   | .loopS kw body endT => kw :: (Stmts.toks body ++ [endT])
   | .forS kw var eq lo to hi step body endT =>
     kw :: var :: eq :: (X.toks lo ++ to :: (X.toks hi ++ (stepToks X step ++ (Stmts.toks body ++ [endT]))))
+  | .foreachS kw e body endT => kw :: (X.toks e ++ (Stmts.toks body ++ [endT]))
+  | .repeatS kw body untilT c => kw :: (Stmts.toks body ++ untilT :: X.toks c)
 def Stmts.toks : List (Stmt ε) → List Tok
   | [] => []
   | s :: rest => s.toks ++ Stmts.toks rest
@@ -157,6 +163,10 @@ def Stmt.tree : Stmt ε → Tree
       ([binNode (X.tree lo) (.leaf to) (X.tree hi)] ++
         (match step with | some (_, e) => [X.tree e] | none => []) ++ Stmts.trees body)
       ["var", var.value]
+  | .foreachS kw e body endT => mk "foreach" "foreach" (Range.span kw.rng endT.rng) (X.tree e :: Stmts.trees body)
+  | .repeatS kw body _ c =>
+    mk "repeat" "repeat" (Range.span kw.rng (X.tree c).rng)
+      [condBlock (Range.span kw.rng (X.tree c).rng) (some (X.tree c)) (Stmts.trees body)]
 def Stmts.trees : List (Stmt ε) → List Tree
   | [] => []
   | s :: rest => s.tree :: Stmts.trees rest
@@ -194,6 +204,10 @@ def Stmt.WF : Stmt ε → Prop
   | .forS kw var eq lo to hi step body endT =>
     kw.kind = Kind.For ∧ var.kind = Kind.Identifier ∧ eq.kind = Kind.Equals ∧ exprOKb X lo = true ∧
     to.kind ∈ toKinds ∧ exprOKb X hi = true ∧ stepWF X step ∧ Stmts.WF body ∧ endT.kind = Kind.EndFor
+  | .foreachS kw e body endT =>
+    kw.kind = Kind.ForEach ∧ exprOKb X e = true ∧ firstKindOK (fun k => k != Kind.OQL && k != Kind.Comment) (X.toks e) = true ∧
+    Stmts.WF body ∧ firstKindOK (fun k => k != Kind.Using) (Stmts.toks X body ++ [endT]) = true ∧ endT.kind = Kind.EndFor
+  | .repeatS kw body untilT c => kw.kind = Kind.Repeat ∧ Stmts.WF body ∧ untilT.kind = Kind.Until ∧ exprOKb X c = true
 def Stmts.WF : List (Stmt ε) → Prop
   | [] => True
   | s :: rest => s.WF ∧ Stmts.WF rest
@@ -217,6 +231,10 @@ def Stmt.wfb : Stmt ε → Bool
   | .forS kw var eq lo to hi step body endT =>
     kw.kind == Kind.For && var.kind == Kind.Identifier && eq.kind == Kind.Equals && exprOKb X lo &&
     toKinds.contains to.kind && exprOKb X hi && stepWfb X step && Stmts.wfb body && endT.kind == Kind.EndFor
+  | .foreachS kw e body endT =>
+    kw.kind == Kind.ForEach && exprOKb X e && firstKindOK (fun k => k != Kind.OQL && k != Kind.Comment) (X.toks e) &&
+    Stmts.wfb body && firstKindOK (fun k => k != Kind.Using) (Stmts.toks X body ++ [endT]) && endT.kind == Kind.EndFor
+  | .repeatS kw body untilT c => kw.kind == Kind.Repeat && Stmts.wfb body && untilT.kind == Kind.Until && exprOKb X c
 def Stmts.wfb : List (Stmt ε) → Bool
   | [] => true
   | s :: rest => s.wfb && Stmts.wfb rest
